@@ -265,3 +265,35 @@ def sx_format(fmt, *args, **kw):
         return fmt.format(*args, **kw)
     # delegate to str.format: SymInt.__format__ produces tokens
     return fmt.format(*args, **kw)
+
+
+def sx_fstr(*parts):
+    """f-string evaluation that keeps symbolic strings symbolic"""
+    from . import chars
+    out = []
+    symbolic = False
+    for p in parts:
+        if isinstance(p, str):
+            out.append(p)
+            continue
+        value, conv, spec = p
+        if conv == 115:
+            value = sx_str(value)
+        elif conv == 114:
+            f = getattr(value, '__sx_repr__', None)
+            value = f() if f is not None else (format_int(value, '') if isinstance(value, (SymInt, SymBool)) else repr(value))
+        elif conv == 97:
+            value = ascii(value)
+        if isinstance(value, chars.SymChars):
+            if spec:
+                raise Unsupported('format spec on a symbolic string')
+            out.append(value)
+            symbolic = True
+        else:
+            out.append(format(value, spec))
+    if not symbolic:
+        return ''.join(out)
+    cps = []
+    for o in out:
+        cps += chars.as_cps(o)
+    return chars.mk(cps)
